@@ -25,23 +25,27 @@ pub trait Mechanism {
   // ghost: which mechanism this object implements (fixed for its lifetime) and whether it has completed
   spec fn kind(&self) -> MechKind;
   spec fn complete(&self) -> bool;
+  // ghost: the side of the security handshake this object plays (fixed for its lifetime): the server side is the one that
+  // CHECKS the peer's credentials / keys; a client-side mechanism completes on the server's word (PLAIN: a bare WELCOME)
+  spec fn role_server(&self) -> bool;
   fn process_token(&mut self, token: &[u8]) -> (r: Result<ProcessTokenAction, ZmqError>)
-    ensures final(self).kind() == old(self).kind();
+    ensures final(self).kind() == old(self).kind(), final(self).role_server() == old(self).role_server();
   fn produce_token(&mut self) -> (r: Result<Option<Vec<u8>>, ZmqError>)
-    ensures final(self).kind() == old(self).kind();
+    ensures final(self).kind() == old(self).kind(), final(self).role_server() == old(self).role_server();
   fn is_complete(&self) -> (r: bool) ensures r == self.complete();
   fn is_error(&self) -> (r: bool);
   fn error_reason(&self) -> (r: Option<&str>);
   // the data-phase framer remembers which mechanism produced it and whether that mechanism had completed
   fn into_framer(self: Box<Self>, max_msg_size: i64, sndbatch_count: usize, sndbatch_bytes_physical: usize)
     -> (r: Result<(Box<dyn ISecureFramer>, Option<Vec<u8>>), ZmqError>)
-    ensures r matches Ok(p) ==> p.0.origin_kind() == self.kind() && p.0.origin_complete() == self.complete();
+    ensures r matches Ok(p) ==> p.0.origin_kind() == self.kind() && p.0.origin_complete() == self.complete() && p.0.origin_role_server() == self.role_server();
 }
 
 pub struct NullMechanism;
 impl Mechanism for NullMechanism {
   open spec fn kind(&self) -> MechKind { MechKind::Null }
   open spec fn complete(&self) -> bool { true }
+  uninterp spec fn role_server(&self) -> bool;
   #[verifier::external_body]
   fn process_token(&mut self, token: &[u8]) -> (r: Result<ProcessTokenAction, ZmqError>) { unimplemented!() }
   #[verifier::external_body]
@@ -61,6 +65,7 @@ impl Mechanism for NullMechanism {
 pub trait ISecureFramer {
   spec fn origin_kind(&self) -> MechKind;
   spec fn origin_complete(&self) -> bool;
+  spec fn origin_role_server(&self) -> bool;
   // ghost history: every frame try_read_msg has returned so far, in order
   spec fn read_log(&self) -> Seq<Msg>;
   // ghost termination measure (ASSUMED for trait objects; for NullFramer the buffer length is one)
@@ -71,12 +76,14 @@ pub trait ISecureFramer {
     ensures
       final(self).origin_kind() == old(self).origin_kind(),
       final(self).origin_complete() == old(self).origin_complete(),
+      final(self).origin_role_server() == old(self).origin_role_server(),
       r matches Ok(Some(m)) ==> final(self).read_log() == old(self).read_log().push(m)
         && final(self).budget(final(network_buffer)@) < old(self).budget(old(network_buffer)@),
       !(r matches Ok(Some(_))) ==> final(self).read_log() == old(self).read_log(),
       r matches Ok(None) ==> final(self).would_block(final(network_buffer)@);
   fn write_msg_multipart(&mut self, msgs: FrameBatch) -> (r: Result<Bytes, ZmqError>)
     ensures final(self).origin_kind() == old(self).origin_kind(), final(self).origin_complete() == old(self).origin_complete(),
+      final(self).origin_role_server() == old(self).origin_role_server(),
       final(self).read_log() == old(self).read_log();
 }
 
